@@ -15,7 +15,7 @@ CHECK = {
          'original PWM 0/100/255, stored data / configured map / full initialisation, stop by cancellation or by stalled-at-max error, timer tie order) every execution with at most '
          '2 (quick) / 3 (thorough) deviations, a deviation being: cancellation before a given file operation or at an idle instant, or a refused / silently ignored write after the stop event. '
          'Oracle when Run has returned: (pwm_enable == original and original != 1) or pwm == 255; executions in which the final full-speed write itself was refused/ignored are excluded. '
-         'distinct_nontrivial = distinct (configuration, observation) outcomes.',
+         'distinct_nontrivial = distinct (configuration, observation) outcomes. Layer 1 offers, after every mode write of the restore phase, a failing (EIO) read-back of the control mode as a further environment answer (reads that establish the original mode are left alone). Layer 2 has a job with a fan driven through external commands.',
  'assumptions': COMMON_ASSUME + ['fan2go goroutines are not pre-empted in the middle of a handler (bubble scheduling); the environment acts before any file operation and at idle instants',
                                    'vsync.Mutex (Cond-based) replaces sync.Mutex in the controller package so that lock waits are durable blocks for the virtual clock'],
  'level_text': 'all signal-arrival points x write-fault combinations up to a deviation bound, each execution run to completion on the real code; final device state checked',
